@@ -161,23 +161,7 @@ def check(run):
     if nder < 10:
         run.broke('only %d dereferences of m_channel found (14 confirmed by hand)' % nder)
 
-    run.clause('R7 the socket move constructors transfer every field (mem-initialiser for each, or a tabled default) and re-point registry and forwarder')
-    for cls, spec in ((T, 'tcp'), (U, 'udp')):
-        mv = [f for f in fx.fn(cls + '::socket') if '&&' in f.sig][0]
-        run.touch(mv)
-        rec = fx.record(cls)[0]
-        inited = {it.get('field') for it in mv.inits if it.get('written')}
-        bases = [it for it in mv.inits if it.get('base') and it.get('written')]
-        for f in rec['fields']:
-            run.check(f['name'] in inited, 'R7', 'move-transfers', '%s(&&) transfers %s' % (cls, f['name']), mv.loc(),
-                      'the move constructor has no mem-initialiser for %s: the new object silently gets the default instead of the source\'s value' % f['name'], 'mem-initialiser present')
-        okb = bool(bases) and all('std::move' in q.render(mv, b.get('e')) for b in bases)
-        run.check(okb, 'R7', 'move-transfers', '%s(&&) transfers base socket_base' % cls, mv.loc(), 'the base sub-object is not move-constructed from the source', 'base moved')
-        # initialiser reads the same-named field of the source
-        for it in mv.inits:
-            if it.get('field') and it.get('written') and is_node(it.get('e')):
-                srcs = {x.get('name') for x in walk(it['e']) if x['k'] == 'member' and x.get('mk') == 'field'}
-                run.check(it['field'] in srcs, 'R7', 'move-source', '%s(&&): %s from s.%s' % (cls, it['field'], it['field']), mv.loc(), '%s is initialised from %s, not from the source\'s %s' % (it['field'], sorted(srcs), it['field']), 'initialised from the same field of the source', nontrivial=False)
+    move_ctor_rules(run, ((T, 'tcp'), (U, 'udp')))
 
     run.clause('R4 simulation::run catch-all: cancels from copies of the containers, sets the stop flag and re-throws on every path; remove_timer searches the whole equal-expiry range')
     rn = fx.fn1(S + '::run')
@@ -200,6 +184,28 @@ def check(run):
     run.floor('R15', 10)
     run.floor('R5', 10)
     run.floor('R7', 40)
+
+
+def move_ctor_rules(run, classes):
+    fx = run.fx
+    run.clause('R7 the socket move constructors transfer every field (mem-initialiser for each, or a tabled default) and re-point registry and forwarder')
+    for cls, spec in classes:
+        mv = [f for f in fx.fn(cls + '::socket') if '&&' in f.sig][0]
+        run.touch(mv)
+        rec = fx.record(cls)[0]
+        inited = {it.get('field') for it in mv.inits if it.get('written')}
+        bases = [it for it in mv.inits if it.get('base') and it.get('written')]
+        for f in rec['fields']:
+            run.check(f['name'] in inited, 'R7', 'move-transfers', '%s(&&) transfers %s' % (cls, f['name']), mv.loc(),
+                      'the move constructor has no mem-initialiser for %s: the new object silently gets the default instead of the source\'s value' % f['name'], 'mem-initialiser present')
+        okb = bool(bases) and all('std::move' in q.render(mv, b.get('e')) for b in bases)
+        run.check(okb, 'R7', 'move-transfers', '%s(&&) transfers base socket_base' % cls, mv.loc(), 'the base sub-object is not move-constructed from the source', 'base moved')
+        # initialiser reads the same-named field of the source
+        for it in mv.inits:
+            if it.get('field') and it.get('written') and is_node(it.get('e')):
+                srcs = {x.get('name') for x in walk(it['e']) if x['k'] == 'member' and x.get('mk') == 'field'}
+                run.check(it['field'] in srcs, 'R7', 'move-source', '%s(&&): %s from s.%s' % (cls, it['field'], it['field']), mv.loc(), '%s is initialised from %s, not from the source\'s %s' % (it['field'], sorted(srcs), it['field']), 'initialised from the same field of the source', nontrivial=False)
+
 
 
 def forwarder_rules(run, classes):
